@@ -7,12 +7,13 @@ import (
 )
 
 // C14 (a lost session whose target has stopped reading): two facts about internal/server/communicator.go.
-//   carrierWriteFailureEndsSession — the object HandleConnection hands to smux.Server is of a type declared in the
-//     package whose Write method, in its `if err != nil` branch, closes a multiplexer session, and HandleConnection
-//     tells that object which session (a call of its `watch` method with `ch.session`);
-//   handlerReleasesTargetOnSessionEnd — acceptStream closes the handler's `ended` channel when it returns
-//     (`defer close(ch.ended)`, the channel made in HandleConnection before the session starts), and muxHandler starts
-//     a goroutine that closes the target connection when a receive from `ch.ended` succeeds.
+//
+//	carrierWriteFailureEndsSession — the object HandleConnection hands to smux.Server is of a type declared in the
+//	  package whose Write method, in its `if err != nil` branch, closes a multiplexer session, and HandleConnection
+//	  tells that object which session (a call of its `watch` method with `ch.session`);
+//	handlerReleasesTargetOnSessionEnd — acceptStream closes the handler's `ended` channel when it returns
+//	  (`defer close(ch.ended)`, the channel made in HandleConnection before the session starts), and muxHandler starts
+//	  a goroutine that closes the target connection when a receive from `ch.ended` succeeds.
 func init() {
 	extractors = append(extractors, func(o *out) {
 		b := o.w("C14Stall.lean")
@@ -86,23 +87,44 @@ func init() {
 				}
 			}
 			// muxHandler: go func() { select { case <-ch.ended: <close upstreamConnection> … } }()
+			// The goroutine may be a function literal or a function/method of the package started with `go`; in the
+			// latter case its body is read with its parameters bound to the arguments of the go statement.
 			watcher := false
 			if mh := findFunc(f, "ConnectionHandler", "muxHandler"); mh != nil && mh.Body != nil {
+				tgt := openedTarget14(mh)
+				idx := pkgFuncIndex14("internal/server")
 				ast.Inspect(mh.Body, func(n ast.Node) bool {
 					g, ok := n.(*ast.GoStmt)
 					if !ok {
 						return true
 					}
-					ast.Inspect(g.Call, func(m ast.Node) bool {
+					var body ast.Node = g.Call
+					b := bind14{}
+					if callee := resolveCall14(idx, g.Call, mh); callee != nil {
+						body, b = callee.Body, bindCall14(bind14{}, g.Call, callee)
+					}
+					ast.Inspect(body, func(m ast.Node) bool {
 						cc, ok := m.(*ast.CommClause)
-						if !ok || cc.Comm == nil || strings.ReplaceAll(src(cc.Comm), " ", "") != "<-ch.ended" {
+						if !ok || cc.Comm == nil {
+							return true
+						}
+						comm := strings.ReplaceAll(src(cc.Comm), " ", "")
+						if !strings.HasPrefix(comm, "<-") || b.of(comm[2:]) != recvVar14(mh)+".ended" {
 							return true
 						}
 						for _, st := range cc.Body {
-							t := strings.ReplaceAll(src(st), " ", "")
-							if strings.Contains(t, "Close(upstreamConnection)") || strings.Contains(t, "upstreamConnection.Close()") {
-								watcher = true
-							}
+							ast.Inspect(st, func(k ast.Node) bool {
+								if c, ok := k.(*ast.CallExpr); ok {
+									fn := src(c.Fun)
+									if strings.HasSuffix(fn, "Close") && len(c.Args) == 1 && b.of(src(c.Args[0])) == tgt {
+										watcher = true
+									}
+									if strings.HasSuffix(fn, ".Close") && len(c.Args) == 0 && b.of(strings.TrimSuffix(fn, ".Close")) == tgt {
+										watcher = true
+									}
+								}
+								return true
+							})
 						}
 						return true
 					})
